@@ -37,6 +37,7 @@ type Call struct {
 	Fault   *Fault `json:"fault,omitempty"`
 	Reader  string `json:"reader,omitempty"`
 	Cred    string `json:"cred,omitempty"`
+	Huge    bool   `json:"huge,omitempty"`
 }
 
 type Scenario struct {
@@ -522,6 +523,9 @@ func sampleCall(rng *rand.Rand, mode Mode) Call {
 	}
 	if c.Op == "echoForm" && rng.Intn(invalidP*2) == 0 {
 		c.Invalid = "minLength"
+	}
+	if c.Op == "echoForm" && c.Invalid == "" && (mode == ModeC01Clean || mode == ModeC01Fault) && rng.Intn(20) == 0 {
+		c.Huge = true // a form member longer than ten MiB: delivered whole or refused, never cut
 	}
 	if c.Op == "echoParams" && rng.Intn(3) == 0 {
 		c.Invalid = "delim" // values containing a style's delimiter: outside the core domain, may be refused
